@@ -55,6 +55,10 @@ func (e *Engine) localNames(fn *ssa.Function) []string {
 	for _, p := range fn.Params {
 		delete(seen, p.Name())
 	}
+	// captured variables of a closure are named by its contract like locals
+	for _, fv := range fn.FreeVars {
+		seen[fv.Name()] = true
+	}
 	var out []string
 	for n := range seen {
 		if n != "_" {
@@ -77,12 +81,23 @@ func (e *Engine) regen(fn *ssa.Function, con *Contract, mark, errMark, pathMark 
 		e.localAlias[key] = alias
 	}
 	e.unkIdents = map[string]bool{}
+	skips := e.assumeSkips
 	e.verifyFunction(fn, con)
+	if e.assumeSkips > skips {
+		// an assumed clause (requires, callee ensures) could not be evaluated under this reading
+		return true
+	}
 	if len(e.errors) > errMark {
+		if os.Getenv("TQV_DEBUG") == "rebind" {
+			fmt.Fprintf(os.Stderr, "   regen %v: %v\n", alias, e.errors[errMark:])
+		}
 		return true
 	}
 	for _, o := range e.obls[mark:] {
 		if strings.Contains(o.Desc, "clause cannot be evaluated") {
+			if os.Getenv("TQV_DEBUG") == "rebind" {
+				fmt.Fprintf(os.Stderr, "   regen %v: %s: %s\n", alias, o.Name, o.Desc)
+			}
 			return true
 		}
 	}
